@@ -4,3 +4,4 @@ from . import rules_walk  # noqa
 from . import rules_tables  # noqa
 from . import rules_sched  # noqa
 from . import rules_guard  # noqa
+from . import rules_world  # noqa
